@@ -3,7 +3,7 @@ CONSTANTS
   MaxN = 3
   MaxWant = 2
   MaxRetries = 1
-  KindSet = {"ok1", "ok2", "s403", "s503", "connerr", "s500"}
+  KindSet = {"ok1", "ok2", "s403", "s503", "connerr", "okcut", "s500"}
   MaxHist = 0
 VIEW view
 INVARIANTS TypeOK Accounting ActiveIsPending
